@@ -118,6 +118,9 @@ def verify_function(tu, fn_name, contracts, int_mode='bv', num_mode='real', pref
     # vacuity guard: the precondition itself must be satisfiable
     exe.obligations.append(Obligation(prefix + fn_name + '/requires_satisfiable', list(st.pc), z3.BoolVal(False), kind='cover'))
     flow.write_log = set()
+    from .state import _ids
+    import itertools
+    first_new_id = next(_ids)
     outs = flow.run_function(fn, args, st)
     writes, flow.write_log = flow.write_log, None
     errs = [o.st for o in outs if o.kind == 'error'] + exe.errors
@@ -159,6 +162,8 @@ def verify_function(tu, fn_name, contracts, int_mode='bv', num_mode='real', pref
             o = exe.obj_by_id.get(oid)
             if o is None or o.kind in ('local', 'string') or path is None:
                 continue
+            if oid > first_new_id and not o.meta.get('view_of_pre'):
+                continue      # object first reached through a location this function (re)assigned
             if (oid, path) not in allowed:
                 bad.append('%s%s' % (o.name, ''.join('.' + x for x in path)))
         exe.obligations.append(Obligation(prefix + fn_name + '/frame(assigns)', [],
